@@ -288,6 +288,11 @@ class Run:
             ctx.ghost["thm_label"] = t.label
             args = {}
             for name, p in sig.parameters.items():
+                if p.kind is inspect.Parameter.VAR_KEYWORD:
+                    for n2, k2 in t.params.items():     # `**values`: one fresh value per declared kind
+                        if n2 != "canary" and n2 not in sig.parameters:
+                            args[n2] = make_value(ctx, k2, n2)
+                    continue
                 kind = t.params.get(name, p.annotation if p.annotation is not inspect.Parameter.empty else "real")
                 args[name] = make_value(ctx, kind, name)
             try:
